@@ -18,6 +18,7 @@ META = {
              "Observed by oracle on mj_step output for all four integrators: time advanced by exactly timestep (bitwise), quaternion norms within 1e-12, act within actrange, Euler (eulerdamp disabled) qvel' = qvel + h qacc and q' = q + h v' for scalar/free-translation coordinates (1e-12). "
              "C05_actuator_vel - for an actuator with affine gain and bias and no activation the derivative rule of mjd_actuator_vel (gain velocity coefficient times the CLAMPED control plus bias velocity coefficient; 0 when the clamped force sits at either forcerange limit) is the derivative of the applied force wherever it exists, for any forcerange flo < fhi (asymmetric, one-sided); tied on one-hinge models (optionally behind a 3-input PID actuator so that actuator index != control index). "
              "Implicit integrators, oracle with an independently MEASURED derivative: on mjgen models with re-randomised asymmetric/one-sided forceranges, ctrlranges, kv / velocity gains, gear signs, damping, disabled groups, and on custom models (multi-input PID actuators in front of limited ones, tendons across sibling branches and along chains, standalone free body), D = d qfrc/d qvel is measured by central finite differences of mj_forward (one-sided differences must agree, else the case is skipped as a kink) and both (M - hD)(v_new - v) = h(qfrc_smooth + qfrc_constraint) and qDeriv = D are checked row by row (implicitfast: passive + actuator part, full block for standalone free bodies). "
+             "Option combinations: the same step clauses run under extra disableflags (damper, eulerdamp, spring, gravity, actuation, clampctrl, constraint, frictionloss, limit, warmstart, refsafe and random subsets), and for the Euler integrator the clause is (M + h B)(v_new - v) = h(qfrc_smooth + qfrc_constraint) with B the MEASURED joint damping d qfrc_damper_i/d qvel_i (zero when the damper flag removes damping from the dynamics) if eulerdamp is enabled and B = 0 (v_new = v + h qacc) otherwise. "
              "This found two defects of /repo: the velocity-gain term used the unclamped control (fixed in /repo e72d433e4, the revert is kept as a mutant) and derivative terms between dofs that are not on one kinematic chain (cross-branch tendon damping / tendon actuators) are dropped by the sparsity of qDeriv (KNOWN finding C05-F1, emitted only for rows whose missing column is coupled by such a tendon according to input facts of the model). "
              "Not covered: IEEE rounding (all theorems are over R); the DC-motor branch of mj_nextActivation, wrapPeriod/SO3 re-anchoring of integrator activations, sleep filtering, history buffers, plugins; that mj_RungeKutta's loop equals the model's rk4 is tied only on the one-joint system; implicit integrators only through C05_implicit_partial and the oracle."),
     "note": "Trusted: Coq kernel + std-lib real-number axioms (Coquelicot for the derivative); hand-written model Model/Integrate.v; translator translate/tableau2v.py (regex extraction of two initialisers and of the indexing pattern of mj_RungeKutta); unverified float elementary functions Lib/FloatFn.v on the executable side; correspondence harness (gcc, driver c05_integ.c, mjgen.h models).",
@@ -103,7 +104,22 @@ def run(ctx):
     ireq = [(mo, r, integ) for mo in models for r in range(2 if quick else 5) for integ in (2, 3)]
     # custom models (driver c05_custom): multi-input PID actuators in front of limited ones (actuator index != control index),
     # tendons across sibling branches / along a chain, asymmetric and one-sided force / control ranges, standalone free body
-    ireq += [((rng.randrange(1, 10 ** 6), 0xFFFFFFFF, 0), r, integ) for k in range(5 if quick else 60) for r in range(2) for integ in (2, 3)]
+    ireq += [((rng.randrange(1, 10 ** 6), 0xFFFFFFFF, 0), r, integ) for k in range(5 if quick else 40) for r in range(2) for integ in (2, 3)]
+    # option combinations (disableflags) and the Euler integrator with implicit joint damping
+    DS = {"constraint": 1, "equality": 2, "frictionloss": 4, "limit": 8, "contact": 16, "spring": 32, "damper": 64, "gravity": 128,
+          "clampctrl": 256, "warmstart": 512, "actuation": 2048, "refsafe": 4096, "eulerdamp": 32768}
+    combos = [DS["damper"], DS["eulerdamp"], DS["damper"] | DS["eulerdamp"], 0, DS["spring"] | DS["damper"], DS["actuation"], DS["clampctrl"],
+              DS["gravity"] | DS["damper"], DS["constraint"], DS["frictionloss"] | DS["limit"], DS["actuation"] | DS["damper"], DS["warmstart"] | DS["refsafe"]]
+    ireq = [(mo, r, integ, 0) for (mo, r, integ) in ireq]
+    base_models = [mo for (mo, r, integ, fl) in ireq if r == 0 and integ == 2]
+    k = 0
+    for mo in base_models:
+        for j in range(3 if quick else 5):
+            fl = combos[k % len(combos)] if j < 2 or quick else sum(b for b in DS.values() if rng.random() < 0.25)
+            ireq.append((mo, 10 + j, 0, fl)); k += 1           # Euler
+        for integ in (2, 3):
+            fl = combos[(k * 5 + integ) % len(combos)] if quick else sum(b for b in DS.values() if rng.random() < 0.25)
+            ireq.append((mo, 20 + integ, integ, fl)); k += 1
     vreq = []
     for k in range(60 if quick else 1500):
         flo = -rng.uniform(0.05, 2) if rng.random() < 0.7 else 0.0
@@ -123,8 +139,8 @@ def run(ctx):
         inp.append("E %d %d %d %d" % (mo[0], mo[1], mo[2], r))
     for (mo, integ, ns, nodamp) in sreq:
         inp.append("S %d %d %d %d %d %d" % (mo[0], mo[1], mo[2], integ, ns, nodamp))
-    for (mo, r, integ) in ireq:
-        inp.append("I %d %d %d %d %d" % (mo[0], mo[1], mo[2], r, integ))
+    for (mo, r, integ, dfl) in ireq:
+        inp.append("I %d %d %d %d %d %d" % (mo[0], mo[1], mo[2], r, integ, dfl))
     for (pre_, cl, clo, chi, fl, a) in vreq:
         inp.append("V %d %d %x %x %d %s" % (pre_, cl, bits(clo), bits(chi), fl, " ".join("%x" % bits(x) for x in a)))
     for a in rreq:
@@ -335,12 +351,13 @@ def run(ctx):
     # clamp or another kink within eps) are skipped and counted.
     nimp = nimp_kink = 0
     EPS = 1e-6
-    for (mo, r, integ) in ireq:
+    neuler = 0
+    for (mo, r, integ, dfl) in ireq:
         line = lines[pos]; pos += 1
-        case = {"op": "mj_step", "model": ({"c05_custom_seed": mo[0]} if mo[1] == 0xFFFFFFFF else {"seed": mo[0], "feat": mo[1], "nbody": mo[2]}), "rep": r, "integrator": inames[integ],
+        case = {"op": "mj_step", "model": ({"c05_custom_seed": mo[0]} if mo[1] == 0xFFFFFFFF else {"seed": mo[0], "feat": mo[1], "nbody": mo[2]}), "rep": r, "integrator": inames[integ], "extra_disableflags": dfl,
                 "note": "driver mode I: custom model (multi-input PID actuators, cross-branch tendons, asymmetric ranges) or mjgen model with derivative-relevant parameters re-randomised"}
         parts = line.split("|")
-        if "ERR" in line or len(parts) != 18:
+        if "ERR" in line or len(parts) != 22:
             ctx.broken.append(("correspondence", "driver reply unusable (mode I)", line[:200] + " for " + str(case)))
             continue
         nv = int(parts[0]); h = hx(parts[1].split())[0]
@@ -380,7 +397,24 @@ def run(ctx):
             nimp_kink += 1
             continue
         Dref = Dfull if integ == 2 else Dfast
-        if integ == 2:
+        if integ == 0:
+            # Euler: joint damping is integrated implicitly iff eulerdamp is enabled; the damping that EXISTS in the dynamics is
+            # measured (d qfrc_damper_i / d qvel_i, zero when the damper flag disables passive damping): (M + h B)(v' - v) = h f
+            B0_, Bp_, Bm_ = hx(parts[18].split()), hx(parts[19].split()), hx(parts[20].split())
+            flags = int(parts[21].split()[0])
+            D = [0.0] * (nv * nv)
+            for i in range(nv):
+                dc = (Bp_[i] - Bm_[i]) / (2 * EPS)
+                if abs((Bp_[i] - B0_[i]) / EPS - (B0_[i] - Bm_[i]) / EPS) > 1e-3 * (1 + abs(dc)):
+                    kinks.append((i, i))
+                D[i * nv + i] = dc if not (flags & 32768) else 0.0
+            if kinks:
+                nimp_kink += 1
+                continue
+            QD = D[:]           # no qDeriv in the Euler integrator
+            Dref = D
+            neuler += 1
+        elif integ == 2:
             D = Dfull
         else:
             D = [Dfull[k * nv + i] if (fb[k] >= 0 and fb[k] == fb[i]) else Dfast[k * nv + i] for k in range(nv) for i in range(nv)]
@@ -406,9 +440,10 @@ def run(ctx):
                     worst[cls] = (k, rel, acc)
         for cls in sorted(worst):
             k = worst[cls][0]
-            ctx.violation("impl_violation", case, expected="(M - h D)(v' - v) = h (qfrc_smooth + qfrc_constraint) with D measured by finite differences of mj_forward",
+            ctx.violation("impl_violation", case, expected=("(M + h B)(v' - v) = h (qfrc_smooth + qfrc_constraint), B = measured joint damping if eulerdamp is enabled else 0 (v' = v + h qacc)" if integ == 0 else
+                                    "(M - h D)(v' - v) = h (qfrc_smooth + qfrc_constraint) with D measured by finite differences of mj_forward"),
                           observed={"dof": k, "residual": worst[cls][2], "relative": worst[cls][1], "D_row_fd": D[k * nv:(k + 1) * nv], "qDeriv_row_engine": QD[k * nv:(k + 1) * nv],
-                                    "v": v0[k], "v_new": v1[k], "h": h}, signature={"site": "mj_implicit", "class": cls, "integrator": inames[integ]}, theorem="C05_implicit_partial")
+                                    "v": v0[k], "v_new": v1[k], "h": h}, signature={"site": "mj_Euler" if integ == 0 else "mj_implicit", "class": cls, "integrator": inames[integ]}, theorem="C05_implicit_partial")
         # the engine's analytic derivative itself against the measured one
         seen = set()
         for k in range(nv):
@@ -509,6 +544,7 @@ def run(ctx):
     ctx.cov["support"]["mj_step_steps_checked_by_oracle"] = nsteps_checked
     ctx.cov["support"]["implicit_steps_checked_against_finite_difference_derivative"] = nimp
     ctx.cov["support"]["implicit_steps_skipped_at_a_kink"] = nimp_kink
+    ctx.cov["support"]["euler_damping_steps_checked"] = neuler
     ctx.cov["support"]["one_hinge_actuator_cases_saturated"] = nsat
     ctx.cov["explanation"] = ("11 theorems proved over R for all inputs of the model; tableau regenerated from source and decided in Q; model tied to the working tree by "
                               "%d numeric comparisons; %d mj_step steps checked by the oracle" % (len(qreq) + len(preq) + nact + len(ereq) + len(rreq), nsteps_checked))
